@@ -490,7 +490,8 @@ func extractElGamalPublicKey(data []byte, pubKeySize int) (types.ReceivingPublic
 // extractPaddingData extracts padding bytes from the data at the specified range.
 // Returns a copy of the padding data.
 func extractPaddingData(data []byte, paddingStart, paddingEnd int) []byte {
-	return data[paddingStart:paddingEnd]
+	// Copy: the padding must not alias the caller's (parse) buffer.
+	return append([]byte(nil), data[paddingStart:paddingEnd]...)
 }
 
 // extractEd25519SigningKey extracts and validates an Ed25519 signing public key from the data.
@@ -501,7 +502,8 @@ func extractEd25519SigningKey(data []byte, offset, sigKeySize int) (types.Signin
 		log.WithError(err).Error("Invalid Ed25519 public key length")
 		return nil, err
 	}
-	signingPubKeyData := data[offset : offset+sigKeySize]
+	// Copy: NewEd25519PublicKey wraps the slice it is given.
+	signingPubKeyData := append([]byte(nil), data[offset:offset+sigKeySize]...)
 	ed25519Key, err := ed25519.NewEd25519PublicKey(signingPubKeyData)
 	if err != nil {
 		return nil, oops.Wrapf(err, "failed to construct Ed25519 signing key")
